@@ -90,6 +90,7 @@ func runC03(c *core.Ctx, r *core.Reporter) {
 	c03char(c, r, m)
 	c03num(c, r, m)
 	c03local(c, r)
+	c03base(c, r)
 	c03hex(c, r)
 }
 
